@@ -37,6 +37,12 @@ declarations:
 - decl: void dscale(double *arr +rank(1)+intent(inout), int n +implied(size(arr)), double k)
 - decl: int nstr(char **names +intent(in), int n +implied(size(names)))
 - decl: int asum(const Arr *a)
+%(vec)s"""
+
+VEC_DECLS = """\
+- decl: int vsum(const std::vector<int> &v)
+- decl: double vdsum(const std::vector<double> &v)
+- decl: long vlsum(const std::vector<long> &v)
 """
 
 HEADER = """\
@@ -48,6 +54,12 @@ void iscale(int *arr, int n, int k);
 void dscale(double *arr, int n, double k);
 int nstr(char **names, int n);
 int asum(const Arr *a);
+#ifdef __cplusplus
+#include <vector>
+int vsum(const std::vector<int> &v);
+double vdsum(const std::vector<double> &v);
+long vlsum(const std::vector<long> &v);
+#endif
 """
 
 ALLOC_H = """\
@@ -164,6 +176,19 @@ PyObject *hd_charptr(PyObject *obj)
 }
 #ifdef __cplusplus
 }
+#define VECGET(NAME, T, FUNC, MK)                                                \\
+extern "C" PyObject *NAME(PyObject *obj)                                         \\
+{                                                                                \\
+    std::vector<T> v;                                                            \\
+    long base = hd_outstanding();                                                \\
+    if (FUNC(obj, "arg", v) == -1) return NULL;                                  \\
+    PyObject *lst = PyList_New(v.size());                                        \\
+    for (size_t i = 0; i < v.size(); i++) PyList_SET_ITEM(lst, i, MK(v[i]));     \\
+    return Py_BuildValue("Nll", lst, 1L, hd_outstanding() - base);               \\
+}
+VECGET(hd_vec_int, int, %(prefix)screate_from_PyObject_vector_int, PyLong_FromLong)
+VECGET(hd_vec_long, long, %(prefix)screate_from_PyObject_vector_long, PyLong_FromLong)
+VECGET(hd_vec_double, double, %(prefix)screate_from_PyObject_vector_double, PyFloat_FromDouble)
 #endif
 """
 
@@ -171,7 +196,8 @@ DRIVER = r'''
 import ctypes, json, sys
 lib = ctypes.PyDLL(sys.argv[1])
 cases = json.load(open(sys.argv[2]))
-for n in ("hd_get_int", "hd_get_double", "hd_roundtrip_int", "hd_charptr"):
+for n in ("hd_get_int", "hd_get_double", "hd_roundtrip_int", "hd_charptr", "hd_vec_int", "hd_vec_long", "hd_vec_double"):
+    if not hasattr(lib, n): continue
     getattr(lib, n).restype = ctypes.py_object
     getattr(lib, n).argtypes = [ctypes.py_object]
 for n in ("hd_fill_int", "hd_fill_double", "hd_fill_char"):
@@ -231,6 +257,12 @@ def gen_objects(thorough):
             objs.append(("list", list(t)))
             if n <= 2 or thorough:
                 objs.append(("tuple", list(t)))
+    # element values that collide with the error sentinels of the C conversion functions, and the extremes
+    for items in ([("int", -1)], [("int", 0)], [("int", -1), ("int", 5)], [("int", 5), ("int", -1)], [("int", 0), ("int", -1), ("int", 0)],
+                  [("int", 2147483647), ("int", -2147483648)], [("float", -1.0)], [("float", 1.5), ("float", -1.0)], [("float", 0.0)],
+                  [("bool", False), ("int", -1)], [("float", -1.0), ("int", -1), ("float", 1e300)]):
+        objs.append(("list", items))
+        objs.append(("tuple", items))
     objs += [("int", 5), ("float", 1.5), ("none", None), ("str", "ab"), ("str", ""), ("bytes", "ab"), ("bool", True),
              ("list", [("int", i) for i in range(10)]), ("list", [("int", 1)] * 5 + [("str", "bad")])]
     return objs
@@ -245,13 +277,13 @@ def run(ctx, drv, accepts, thorough, dis):
         try:
             cxx = lang != "c"
             hdr = "hlp.hpp" if cxx else "hlp.h"
-            y = shroudrun.write_yaml(d, "hlp.yaml", YAML % {"hdr": hdr, "lang": lang})
+            y = shroudrun.write_yaml(d, "hlp.yaml", YAML % {"hdr": hdr, "lang": lang, "vec": VEC_DECLS if lang != "c" else ""})
             open(os.path.join(d, hdr), "w").write(HEADER)
             out = os.path.join(d, "out")
             os.makedirs(out)
             cfg, exc, _ = shroudrun.run_inproc([y], out, path=[d])
             if exc is not None:
-                ctx.fail("generate:helpers-" + lang, "Shroud fails on the list-mode helper library: %r" % (exc,), {"yaml": YAML % {"hdr": hdr, "lang": lang}})
+                ctx.fail("generate:helpers-" + lang, "Shroud fails on the list-mode helper library: %r" % (exc,), {"yaml": YAML % {"hdr": hdr, "lang": lang, "vec": VEC_DECLS if lang != "c" else ""}})
                 continue
             ext = ".cpp" if cxx else ".c"
             modhdr = "pyhlpmodule" + (".hpp" if cxx else ".h")
@@ -268,12 +300,15 @@ def run(ctx, drv, accepts, thorough, dis):
                                 stdout=subprocess.PIPE, stderr=subprocess.STDOUT, text=True)
             if p1.returncode or p2.returncode or p3.returncode:
                 ctx.fail("compile:helpers-" + lang, "list-mode helper file does not compile: " + (p1.stdout + p2.stdout + p3.stdout)[-700:],
-                         {"yaml": YAML % {"hdr": hdr, "lang": lang}})
+                         {"yaml": YAML % {"hdr": hdr, "lang": lang, "vec": VEC_DECLS if lang != "c" else ""}})
                 continue
             cases, reqs = [], []
             for obj in gen_objects(thorough):
                 ms, items = model_obj(obj)
-                for op, key in (("hd_get_int", "i"), ("hd_get_double", "d"), ("hd_roundtrip_int", "i")):
+                ops = [("hd_get_int", "i"), ("hd_get_double", "d"), ("hd_roundtrip_int", "i")]
+                if cxx:
+                    ops += [("hd_vec_int", "i"), ("hd_vec_long", "i"), ("hd_vec_double", "d")]
+                for op, key in ops:
                     cases.append({"op": op, "obj": obj, "items": items, "conv": key})
                     reqs.append("getlist %s %s" % (".".join(map(str, accepts[key])), ms))
                 for insize in ((0, 1, 2, 3, 5) if thorough else (0, 2, 3)):
@@ -299,7 +334,7 @@ def run(ctx, drv, accepts, thorough, dis):
                                stderr=subprocess.PIPE, text=True, timeout=600)
             if p.returncode != 0 or not os.path.exists(rf):
                 ctx.fail("crash:helpers-" + lang, "driving the list-mode helpers crashed (rc=%s): %s" % (p.returncode, p.stderr[-400:]),
-                         {"yaml": YAML % {"hdr": hdr, "lang": lang}})
+                         {"yaml": YAML % {"hdr": hdr, "lang": lang, "vec": VEC_DECLS if lang != "c" else ""}})
                 continue
             results = json.load(open(rf))
             model = drv.run(reqs)
@@ -407,6 +442,8 @@ def judge(c, res, m):
     want = [cval(c["items"][int(t[1:])], c["conv"]) for t in toks]
     if list(lst) != want:
         return "values %r, model %r" % (lst, want)
+    if c["op"].startswith("hd_vec"):
+        return None if after == 0 else "allocations left %d" % after
     if before != int(parts[2]) + int(parts[3]) or after != 0:
         return "allocations before/after release %d/%d, model %s/0" % (before, after, int(parts[2]) + int(parts[3]))
     return None
@@ -459,7 +496,7 @@ def member_oracle(ctx, thorough):
         try:
             cxx = lang != "c"
             hdr = "rec.hpp" if cxx else "rec.h"
-            ytext = REC_YAML % {"hdr": hdr, "lang": lang}
+            ytext = REC_YAML % {"hdr": hdr, "lang": lang, "vec": VEC_DECLS if lang != "c" else ""}
             y = shroudrun.write_yaml(d, "rec.yaml", ytext)
             open(os.path.join(d, hdr), "w").write(REC_HEADER)
             out = os.path.join(d, "out")
